@@ -7,6 +7,7 @@ import random
 import tracegen
 import framework as fw
 import cp_common as cp
+import translate
 import pC08
 
 ID = "C20"
@@ -17,6 +18,7 @@ SOURCES = {"hta/analyzers/critical_path_analysis.py": ["CriticalPathAnalysis", "
            "hta/common/trace_file.py": ["read_trace", "write_trace", "update_trace_rank", "create_rank_to_trace_dict", "create_rank_to_trace_dict_from_dir",
                                         "get_trace_files"],
            "hta/common/trace_parser.py": ["parse_trace_dict"]}
+TRANSLATE = [translate.gen_overlay_rules]
 N_CASES = {"quick": 200, "thorough": 3000}
 RULE = ("four kinds of generated case: overlay (causally consistent traces and windows as C08, both file formats, all 8 combinations of only_show_critical_events / "
         "show_all_edges / CRITICAL_PATH_SHOW_ZERO_WEIGHT_LAUNCH_EDGE, with and without zero-weight launch edges in the graph; then, on the same TraceAnalysis object, a "
@@ -727,7 +729,8 @@ LEVEL_TEXT = ("Proof: C20_counters_preserve, C20_overlay_preserves_events, C20_o
               "start/end pair per drawn edge with shared id on the end points' process / thread), C20_update_rank (events, other keys, other metadata fields "
               "untouched; last update wins), C20_write_read (under the codec hypothesis), C20_discovery and C20_discovery_last_wins. Correspondence: real "
               "generate_trace_with_counters / overlay_critical_path_analysis / write_trace / read_trace / update_trace_rank / create_rank_to_trace_dict on generated "
-              "inputs in both formats, files read back with the tool's reader and compared position by position with the model's output.")
+              "inputs in both formats, files read back with the tool's reader and compared position by position with the model's output."
+              " C20_drawn_edges_follow_source: which edges are drawn (and what a hidden zero-weight launch edge is) is regenerated from the source on every run.")
 LEVEL_NOTE = ("The JSON / gzip byte codecs are runtime behaviour: hypothesis of C20_write_read, exercised by the correspondence. Discovery is modelled at the level of "
               "the \"rank\" occurrences in text order (computed by the harness from the parsed document, not with the tool's regular expression).")
 TECHNIQUE = "Coq proof over a hand-written list-level model of the writers + differential run against the real writers and readers in both file formats"
